@@ -141,7 +141,11 @@ def _leaf_weighting(draw, shape, kind, custom=True, p2only=False):
         return {'type': 'custom',
                 'which': 'inner' if p2only else draw(st.sampled_from(
                     ['inner', 'norm', 'dist']))}
-    return draw(vs.weightings(shape, (wk,)))
+    w = draw(vs.weightings(shape, (wk,)))
+    if wk == 'array' and draw(st.booleans()):
+        # float64 weights as given, also on float32 / complex64 spaces
+        w['as64'] = True
+    return w
 
 
 @st.composite
@@ -280,7 +284,7 @@ def _coords_leaf(draw, kind, dtype=None, p2only=False):
 @st.composite
 def _pspace(draw, kind, depth):
     """Recursive product space, length 0-4, power / non-power."""
-    dtype_mode = draw(st.sampled_from(['same', 'same', 'mixed']))
+    dtype_mode = draw(st.sampled_from(['same', 'mixed']))
     fixed_dtype = draw(st.sampled_from(DTYPES[kind]))
     # half of the product spaces are Hilbert spaces throughout (exponent 2
     # and an inner product at every level), the others mix exponents and
@@ -292,7 +296,7 @@ def _pspace(draw, kind, depth):
         lk = kind
         if dtype_mode == 'mixed':
             # same field: real floats of both widths and (rarely) integers
-            if kind == 'real' and draw(st.integers(0, 3)) == 0:
+            if kind == 'real' and draw(st.integers(0, 2)) == 0:
                 lk = 'int'
                 dt = draw(st.sampled_from(['int64', 'int32']))
             else:
@@ -470,18 +474,9 @@ def _leaf_dtypes(sd):
                for l in build.leaf_descs(sd))
 
 
-def _dtype0(sd):
-    """What ``space[0].dtype`` is for a product descriptor: 'float', 'int',
-    'undefined' (nested component with mixed dtypes) or 'empty'."""
-    parts = build.space_parts(sd)
-    if not parts:
-        return 'empty'
-    dts = _leaf_dtypes(parts[0])
-    if len(dts) == 0:
-        return 'empty0'
-    if len(dts) > 1:
-        return 'undefined'
-    return 'int' if next(iter(dts)).kind in 'iu' else 'float'
+def _has_empty(sd):
+    """The product space itself has no components."""
+    return sd['kind'] == 'pspace' and not build.space_parts(sd)
 
 
 def _taints(sd, node):
@@ -498,14 +493,14 @@ def _taints(sd, node):
             if dt.kind in 'iu' and pnode['bdry']:
                 out.add('sub:int-bdry')
         else:
-            out.add('sub:dtype0=' + _dtype0(psd))
+            if _has_empty(psd):
+                out.add('sub:empty')
             if pnode['p'] == 2.0 and not all(c['has_inner']
                                              for c in pnode['parts']):
                 out.add('sub:comp-no-inner')
             if not all(c['has_norm'] for c in pnode['parts']):
                 out.add('sub:comp-no-norm')
             out |= _taints(psd, pnode)
-    out.discard('sub:dtype0=float')
     return out
 
 
@@ -522,7 +517,8 @@ def _region(sd, node):
         if node['cellvol'] == 1.0:
             parts.append('cellvol=1')
     else:
-        parts.append('dtype0=' + _dtype0(sd))
+        if _has_empty(sd):
+            parts.append('empty')
         if node['p'] == 2.0 and not all(c['has_inner']
                                         for c in node['parts']):
             parts.append('comp-no-inner')
@@ -804,7 +800,8 @@ def run_case(desc):
             viol('homogeneity', '||s x|| = {!r}, |s| ||x|| = {!r}, s = {!r}'
                  ''.format(nsx, abs(s) * nx, s))
         # triangle
-        nxy = lib(lambda: space.norm(x + y), 'norm')
+        nxy = lib(lambda: space.norm(space.lincomb(1, x, 1, y)),
+                  'norm')
         if not nxy <= (nx + ny) * (1 + 2 * rel) + tiny:
             viol('triangle', '||x+y|| = {!r} > ||x|| + ||y|| = {!r}'.format(
                 nxy, nx + ny))
@@ -859,7 +856,8 @@ def run_case(desc):
             viol('dist-symmetry', 'd(x,y) = {!r}, d(y,x) = {!r}'.format(
                 dxy, dyx))
         if 'norm' in got:
-            nd = lib(lambda: space.norm(x - y), 'norm')
+            nd = lib(lambda: space.norm(space.lincomb(1, x, -1, y)),
+                     'norm')
             if not abs(dxy - nd) <= 2 * rel * sc + tiny:
                 viol('dist-norm', 'd(x,y) = {!r}, ||x-y|| = {!r}'.format(
                     dxy, nd))
